@@ -30,6 +30,7 @@ def one(args):
         if only_reads and not (touched & only_reads):
             res[c] = {'exit': 0, 'rules': [], 'first': '', 'broken': [], 'skipped': 'the patch touches none of the files this check reads'}
             continue
+        env = dict(env, VERIF_SERIAL='1')          # the matrix is the parallel dimension: the checks' own fork pools would only oversubscribe the cores
         q = subprocess.run([sys.executable, os.path.join(VERIF, 'bin', 'check.py'), c], capture_output=True, text=True, env=env, cwd=VERIF)
         rules = sorted(set(re.findall(r'^  ([A-Z0-9]+)/', q.stdout, re.M)))
         res[c] = {'exit': q.returncode, 'rules': rules, 'first': (re.findall(r'^  [A-Z0-9]+/.*$', q.stdout, re.M) or [''])[0][:300],
@@ -54,7 +55,7 @@ def main():
         items.append((name, p))
     root = tempfile.mkdtemp(prefix='grverif-seeds-')
     try:
-        with ThreadPoolExecutor(max_workers=8) as ex:
+        with ThreadPoolExecutor(max_workers=int(os.environ.get('VERIF_MATRIX_JOBS', '14'))) as ex:
             out = list(ex.map(one, [(n, p, checks, root) for n, p in items]))
     finally:
         shutil.rmtree(root, ignore_errors=True)
